@@ -386,9 +386,11 @@ class SoftErrors:
 
     def __init__(self, rep, holds, what):
         self._rep, self._holds, self._what = rep, holds, what
+        self.softened = 0
 
     def error(self, rule, msg):
         if self._holds():
+            self.softened += 1
             self._rep.info.append('%s: the language-level reading does not apply (%s); decided on %s' % (rule, msg[:220], self._what))
             self._rep.min_instances[rule] = 0
         else:
@@ -498,6 +500,27 @@ def check_class_level_mutables(rep, src, rule, modname, why, minimum=0):
     if n < minimum:
         raise AnalysisError('%s: only %d class-level containers found' % (modname, n))
     return n
+
+
+def two_readings(rep, rule, interpreted, language_level, what_interpreted, what_language):
+    """one clause, two independent readings of the same code: `interpreted(rep)` runs the code on a family of inputs, `language_level(rep)`
+    decides it for every input of a grammar when the code is written in its vocabulary.  A WITNESS of either is reported.  That one of
+    them does not apply (the code left its vocabulary: an analysis error) is an INFO line as long as the other one applied in full and
+    held; when neither applies the clause is undecided."""
+    n_v, n_e, n_i = len(rep.violations), len(rep.errors), len(rep.info)
+    rep.guard(rule, interpreted)
+    i_errs = rep.errors[n_e:]
+    i_holds = len(rep.violations) == n_v and not i_errs
+    soft = SoftErrors(rep, lambda: i_holds, what_interpreted)
+    n_v2, n_e2 = len(rep.violations), len(rep.errors)
+    language_level(soft)
+    l_clean = len(rep.violations) == n_v2 and len(rep.errors) == n_e2 and soft.softened == 0
+    if i_errs and len(rep.violations) == n_v and l_clean:
+        del rep.errors[n_e:n_e + len(i_errs)]
+        for e_ in i_errs:
+            rep.info.append('%s: the interpreted reading does not apply (%s); decided on %s' % (rule, e_[:220], what_language))
+        rep.min_instances[rule] = 0
+    return i_holds
 
 
 class SoftAll(SoftErrors):
